@@ -25,6 +25,8 @@ func VerifC15Stream() {
 		lastID[c.Chunk] = c.ID
 		vndAssert(replica.c.Replay(c) == nil, "replay failed")
 	}
+	lag := vndParam("lag") == 1
+	var backlog []commit.Commit
 	T, M := vndParam("T"), vndParam("M")
 	menu, maxLen := vndParam("menu"), vndParam("maxLen")
 	for t := 0; t < T; t++ {
@@ -58,13 +60,22 @@ func VerifC15Stream() {
 		}
 		got := st.drain()
 		vCheckStream(got, want, lastID, &allIDs)
+		w.check(w.c, "primary")
+		if lag {
+			backlog = append(backlog, got...)
+			continue
+		}
 		for _, c := range got {
 			vndAssert(replica.c.Replay(c) == nil, "replay failed")
 		}
-		w.check(w.c, "primary")
 		w.check(replica.c, "replica")
 		vndAssert(replica.c.Count() == w.c.Count(), "replica Count differs")
 	}
+	// a replica that lags behind: the whole backlog is replayed only now
+	for _, c := range backlog {
+		vndAssert(replica.c.Replay(c) == nil, "replay failed")
+	}
+	w.check(replica.c, "replica at the end")
 	vndObserve("commits", uint64(len(allIDs)))
 	w.observe(replica.c)
 }
